@@ -191,7 +191,10 @@ class Project(object):
         if not package.startswith('.'):
             return package
 
-        root = filename
+        if not filename:
+            raise ImportError('Relative import without a file: {}'.format(package))
+
+        root = os.path.abspath(filename)
         for _ in range(len(package) - len(package.lstrip('.'))):
             root = os.path.dirname(root)
 
@@ -200,9 +203,14 @@ class Project(object):
             parts = self._norm_cache[key]
         except KeyError:
             parts = []
-            while True:
+            # module names start at an entry of the path, also when that
+            # directory holds an __init__.py itself
+            tops = set(os.path.abspath(p or '.') for p in self.get_path())
+            while root not in tops:
                 if os.path.exists(os.path.join(root, '__init__.py')):
                     parts.insert(0, os.path.basename(root))
+                    if os.path.dirname(root) == root:
+                        break
                     root = os.path.dirname(root)
                 else:
                     break
